@@ -90,6 +90,28 @@ func LastTwo(file string) string {
 }
 
 
+// derive builds the logger of a chain, sharing every already derived prefix: the loggers of
+// different records are then siblings and descendants of common parents (a derivation
+// tree), and a logger derived long ago is used again after siblings were derived from its
+// parent - which is what exposes aliasing between a parent's and its children's buffers.
+func (w *worker) derive(si int, chain []vlog.ChainOp) *logger.Logger {
+	l := w.roots[si]
+	key := fmt.Sprint(si)
+	for _, c := range chain {
+		key += "." + c.String()
+		if d, ok := w.derived[key]; ok {
+			l = d
+			continue
+		}
+		l = vlog.Derive(l, []vlog.ChainOp{c})
+		if len(w.derived) > 20000 {
+			w.derived = map[string]*logger.Logger{}
+		}
+		w.derived[key] = l
+	}
+	return l
+}
+
 // Judge decides whether the chunks written for r are acceptable ("" = yes).
 type Judge func(r *Rec, file string, line int, chunks [][]byte) string
 
@@ -103,7 +125,7 @@ func (w *worker) run(r *Rec) string {
 	}
 	sk := w.sinks[si]
 	sk.chunks = sk.chunks[:0]
-	l := vlog.Derive(w.roots[si], r.Chain)
+	l := w.derive(si, r.Chain)
 	file, line := emit(l, r)
 	return judge(r, file, line, sk.chunks)
 }
@@ -193,6 +215,17 @@ func genKinds() Gen {
 				{[]vlog.ChainOp{{Group: "grp"}, {Attrs: []*vlog.Node{leaf("v")}}}, nil},
 				{[]vlog.ChainOp{{Attrs: []*vlog.Node{str("a")}}, {Group: "grp"}}, []*vlog.Node{leaf("v")}},
 				{[]vlog.ChainOp{{Group: "g1"}, {Group: "g2"}}, []*vlog.Node{{Kind: vlog.NGroup, Key: "in", Kids: []*vlog.Node{leaf("v")}}}},
+				// siblings of a shared parent (derivations are memoized per chain prefix): derive and use
+				// child A, derive child B from the same parent, then use child A again
+				{[]vlog.ChainOp{{Attrs: []*vlog.Node{leaf("v")}}, {Group: "ga"}}, []*vlog.Node{str("z")}},
+				{[]vlog.ChainOp{{Attrs: []*vlog.Node{leaf("v")}}, {Group: "gb"}}, []*vlog.Node{str("z")}},
+				{[]vlog.ChainOp{{Attrs: []*vlog.Node{leaf("v")}}, {Group: "ga"}}, []*vlog.Node{str("z")}},
+				{[]vlog.ChainOp{{Attrs: []*vlog.Node{str("a"), leaf("v")}}, {Attrs: []*vlog.Node{str("s1")}}}, nil},
+				{[]vlog.ChainOp{{Attrs: []*vlog.Node{str("a"), leaf("v")}}, {Attrs: []*vlog.Node{str("s2")}}}, nil},
+				{[]vlog.ChainOp{{Attrs: []*vlog.Node{str("a"), leaf("v")}}, {Attrs: []*vlog.Node{str("s1")}}}, nil},
+				{[]vlog.ChainOp{{Group: "g"}, {Attrs: []*vlog.Node{leaf("v")}}, {Group: "ha"}}, []*vlog.Node{str("z")}},
+				{[]vlog.ChainOp{{Group: "g"}, {Attrs: []*vlog.Node{leaf("v")}}, {Attrs: []*vlog.Node{str("hb")}}}, []*vlog.Node{str("z")}},
+				{[]vlog.ChainOp{{Group: "g"}, {Attrs: []*vlog.Node{leaf("v")}}, {Group: "ha"}}, []*vlog.Node{str("z")}},
 			}
 			for _, sh := range shapes {
 				for lv := 0; lv < 5; lv++ {
